@@ -1389,7 +1389,7 @@ def run_memeval(env, name, impl_recs, order, fuel=60000, jobs=4):
         procs.append((subprocess.Popen(["bash", "-c", cmd], stdout=subprocess.DEVNULL, stderr=subprocess.DEVNULL), outp))
     res = {}
     import time
-    deadline = time.time() + (150 if env.tier == "quick" else 3600)
+    deadline = time.time() + (150 if env.tier == "quick" else 1500)
     for pr, outp in procs:
         try:
             pr.wait(timeout=max(1, deadline - time.time()))
@@ -1565,8 +1565,8 @@ def shrink(env, src, release=False, budget=90.0):
 
 def correspond(env, searching=False, model=True):
     tier = env.tier
-    n_prog = 1000 if tier == "quick" else 30000
-    n_shape = 300 if tier == "quick" else 8000
+    n_prog = 1000 if tier == "quick" else 12000
+    n_shape = 300 if tier == "quick" else 4000
     if searching:
         n_prog = int(n_prog * 1.5)
     rng = env.rng
@@ -1737,7 +1737,7 @@ def correspond(env, searching=False, model=True):
     # ---------------- stream 3: host values — builders configured with computed strings inside functions / loops,
     # results of run() crossing call and loop boundaries, frame churn, then observation through the child and the script
     host_stats = {"programs": 0, "accepted": 0, "rejected": 0, "oracle_failures": 0, "child_output_seen": 0}
-    n_host = 120 if tier == "quick" else 3000
+    n_host = 120 if tier == "quick" else 1200
     hcases = [("hc%d" % i, src) for i, src in enumerate(HOST_CORPUS)]
     while len(hcases) < len(HOST_CORPUS) + n_host:
         hcases.append(("h%d" % len(hcases), gen_host(rng)))
